@@ -1,35 +1,33 @@
 /-! # The location cache of `sys.System` (sys/system.go), exactly as coded
 
 `CachedLocations` = a table `name ↦ *CachedLocation` under one mutex ("table lock");
-`CachedLocation{sync.Mutex, Expires, Pending bool, *Location}` ("entry", with its "entry lock").
+`CachedLocation{sync.Mutex, Expires, Pending int, *Location}` ("entry", with its "entry lock").
 Every System API method is `findLocation` (= `CachedLocations.Open`), the Location call, `releaseLocation`
 (= `CachedLocations.Release`).  `CreateLocation` and `GetLocation` (the `LocationProvider` used for parents)
-open with `check = false` and never release.
+open with `check = false`; `CreateLocation` releases when it returns, `GetLocation` releases right away (a
+`LocationProvider` cannot say when it is done).  Every Open — successful or not — is followed by one Release.
 
-## Atomic steps (line numbers of sys/system.go)
+## Atomic steps
 
-* **O** `Open`, table section, 129-157 / 129-161: `cls.Lock()`; `expire(name, released=false)` (102-117: if the
-  name has an entry: `cl.Lock()`, `cl.Pending = true`, and because `Pending` was just set the entry is always
-  "live": `loc = cl.Location`, `cl.Unlock()`); if `loc != nil` → `cls.Unlock()`, return it (161-162).
-  Otherwise (no entry, **or an entry whose Location is still nil**): `expires` from `LocationTTL`
-  (Forever → EndOfTime, else now+ttl), a *new* entry `cl` (Pending = false), `cls.locs[name] = cl` when
-  `ttl != Never || CachePending` (`NewSystem` forces `CachePending`), `cls.Unlock()` (157) and only then
-  `cl.Get` (158).  `expire` never deletes here and `dead` is never set.
-  While O waits for an entry lock it holds the table lock; the holder of an entry lock (step G) never needs
-  the table lock before releasing it, so O is modelled as one atomic step that is simply scheduled later.
-* **G** `CachedLocation.Get`, 229-272: `cl.Lock()`; if `cl.Location == nil`: `sys.OpenLocation` (= `newLocation`:
-  `ensureStorage`, `New…State`, `NewLocation` → `State.Load`; then, when `checkExists`, `locationCreated`
-  must hold, else `NotFoundError`); on success `cl.Location = loc` and, if the location has the property
-  `!cacheTTL` (ms), `cl.Expires = now + that`; `cl.Unlock()`.  The entry lock is held for the whole step and every
-  other step that touches this entry blocks on it, so G is atomic.
-* **C** 275-279: `if nil == cl.Location { table lock; delete(locs, name); unlock }` (deletes *by name*).
+* **O** `Open`: `cls.Lock()`; `expire(name, released=false)`: if the name has an entry: `cl.Lock()`, `cl.Pending++`
+  (`Pending` counts the holders, so the entry is "live"), `loc = cl.Location`, `cl.Unlock()`.
+  - `loc != nil`: `cls.Unlock()`; when `check` (= the caller's `check && CheckExistence`) the cached instance is
+    looked at again (`locationCreated(loc)`), whoever opened it first: no marker → `NotFoundError` (the hold stays
+    until the caller's Release).
+  - otherwise (no entry, or an entry whose Location is still nil because its load failed and a holder has not
+    released it yet): the entry found is used again, else a new one (`Expires` from `LocationTTL`: Forever →
+    EndOfTime, else now+ttl; `Pending = 1`) is put into the table when `ttl != Never || CachePending` (`NewSystem`
+    forces `CachePending`).  The entry is locked **before** the table is unlocked, then `CachedLocation.get` loads
+    under the entry lock: `sys.OpenLocation` (= `newLocation`: `ensureStorage`, `New…State`, `NewLocation` →
+    `State.Load`; then, when `check`, `locationCreated` must hold, else `NotFoundError`); on success
+    `cl.Location = loc` and, if the location has the property `!cacheTTL` (ms), `cl.Expires = now + that`.  On failure
+    the entry keeps `Location == nil` and its hold; nothing is deleted here.
+  Every other O or R for the name blocks on the entry lock (holding the table lock) until the load is over, and a
+  name without a Location has no instance anybody could call: O is one atomic step.  (At this granularity the
+  second look at a cached instance is part of O.)
 * **X** the Location method itself (atomic here: per-location atomicity is property C12).
-* **R** `Release`, 170-180: `cls.Lock()`; `expire(name, released=true)`: if the name has an entry, `Pending = false`
-  and, unless `Expires.After(now)`, `delete(locs, name)`; `cls.Unlock()`.
-
-The window between O (table unlocked at 157) and G (entry locked at 229) is real: another O for the same name
-arriving there finds an entry with `Location == nil`, so it creates and installs a second entry.
-`Pending` is a boolean, not a count: any `Release` clears it, whoever else still holds the location.
+* **R** `Release`: `cls.Lock()`; `expire(name, released=true)`: if the name has an entry, `Pending--` (not below 0) and,
+  unless `0 < Pending || (Location != nil && Expires.After(now))`, `delete(locs, name)`; `cls.Unlock()`.
 
 Time is explicit (nanoseconds).  Go maps are key-unique association lists. -/
 
@@ -88,8 +86,8 @@ def installs (cfg : Cfg) : Bool := decide (cfg.ttl ≠ TTL.never) || cfg.cachePe
 /-- a request through the System -/
 inductive Req (sem : LocSem) where
   | api (n : String) (op : sem.Op)   -- any API method: findLocation(check=true); call; releaseLocation
-  | create (n : String)              -- CreateLocation: findLocation(check=false); mark; NO release
-  | peek (n : String)                -- GetLocation (LocationProvider, parents): findLocation(check=false); NO release
+  | create (n : String)              -- CreateLocation: findLocation(check=false); mark; releaseLocation
+  | peek (n : String)                -- GetLocation (LocationProvider, parents): findLocation(check=false); releaseLocation
 
 inductive Out (sem : LocSem) where
   | ok (r : sem.Res)
@@ -102,11 +100,15 @@ def Req.name : Req sem → String
   | .create n => n
   | .peek n => n
 
+def reqCheck : Req sem → Bool
+  | .api _ _ => true
+  | _ => false
+
 /-! ## Sequential semantics -/
 
 structure CEntry (sem : LocSem) where
   expires : Int
-  pending : Bool
+  pending : Nat               -- number of holders: Opens that have not been Released yet
   loc : Option sem.L
 
 structure SysSt (sem : LocSem) where
@@ -114,36 +116,41 @@ structure SysSt (sem : LocSem) where
   store : List (String × sem.S) := []
   loads : List String := []          -- one name per `OpenLocation` call
 
-/-- `expire` (99-119) -/
+/-- `expire`: `Pending++` / `Pending--` (not below 0); the entry stays while it is held, or has a Location that has not
+expired -/
 def expire (st : SysSt sem) (n : String) (released : Bool) (now : Int) : SysSt sem × Option sem.L :=
   match kget st.table n with
   | none => (st, none)
   | some e =>
-    let e : CEntry sem := { e with pending := !released }
-    if e.pending || decide (now < e.expires) then ({ st with table := kset st.table n e }, e.loc)
+    let e : CEntry sem := { e with pending := if released then e.pending - 1 else e.pending + 1 }
+    if decide (0 < e.pending) || (e.loc.isSome && decide (now < e.expires)) then ({ st with table := kset st.table n e }, e.loc)
     else ({ st with table := kdel st.table n }, none)
 
-/-- `CachedLocation.Get` (227-282) for the entry `e` (installed under `n` or private) whose Location is nil -/
+/-- `CachedLocation.get` for the entry `e` (in the table under `n`, or private) whose Location is nil.  A failed load
+leaves the entry as it is: no Location, still held. -/
 def getE (cfg : Cfg) (st : SysSt sem) (n : String) (e : CEntry sem) (installed : Bool) (check : Bool) (now : Int) : SysSt sem × Option sem.L :=
   let l := sem.load now (storeOf st.store n)
   let st := { st with loads := st.loads ++ [n] }
-  if check && cfg.checkExistence && !sem.created l then
-    -- OpenLocation failed: Location stays nil, so lines 275-279 remove the name from the table
-    ({ st with table := kdel st.table n }, none)
+  if check && cfg.checkExistence && !sem.created l then (st, none)
   else
     let e : CEntry sem := { e with loc := some l, expires := (match sem.cacheTTL l with | some d => now + d | none => e.expires) }
     ((if installed then { st with table := kset st.table n e } else st), some l)
 
-/-- `CachedLocations.Open` (127-163) -/
+/-- `CachedLocations.Open` -/
 def openE (cfg : Cfg) (st : SysSt sem) (n : String) (check : Bool) (now : Int) : SysSt sem × Option sem.L :=
   match expire st n false now with
-  | (st, some l) => (st, some l)
+  | (st, some l) =>
+    -- served from the cache: a checked request looks at the marker again
+    if check && cfg.checkExistence && !sem.created l then (st, none) else (st, some l)
   | (st, none) =>
-    let e : CEntry sem := { expires := newExpires cfg now, pending := false, loc := none }
-    let st := if installs cfg then { st with table := kset st.table n e } else st
-    getE cfg st n e (installs cfg) check now
+    match kget st.table n with
+    | some e => getE cfg st n e true check now      -- an entry without a Location (still held): used again
+    | none =>
+      let e : CEntry sem := { expires := newExpires cfg now, pending := 1, loc := none }
+      let st := if installs cfg then { st with table := kset st.table n e } else st
+      getE cfg st n e (installs cfg) check now
 
-/-- `CachedLocations.Release` (167-182) -/
+/-- `CachedLocations.Release` -/
 def releaseE (st : SysSt sem) (n : String) (now : Int) : SysSt sem := (expire st n true now).1
 
 /-- a Location method mutates the instance behind the pointer: the cache entry (if any) sees it -/
@@ -152,7 +159,7 @@ def updLoc (table : List (String × CEntry sem)) (n : String) (l : sem.L) : List
   | some e => kset table n { e with loc := some l }
   | none => table
 
-/-- one request, run alone: `tOpen` is the clock read in Open/Get, `tRel` the one read in Release -/
+/-- one request, run alone: `tOpen` is the clock read in Open/get, `tRel` the one read in Release -/
 def reqE (cfg : Cfg) (st : SysSt sem) (r : Req sem) (tOpen tRel : Int) : SysSt sem × Out sem :=
   match r with
   | .api n op =>
@@ -164,13 +171,13 @@ def reqE (cfg : Cfg) (st : SysSt sem) (r : Req sem) (tOpen tRel : Int) : SysSt s
       (releaseE st n tRel, .ok x.2.2)
   | .create n =>
     match openE cfg st n false tOpen with
-    | (st, none) => (st, .notFound)   -- unreachable: check = false never fails
+    | (st, none) => (releaseE st n tRel, .notFound)   -- unreachable: check = false never fails
     | (st, some l) =>
-      if sem.created l then (st, .created false)
+      if sem.created l then (releaseE st n tRel, .created false)
       else
         let x := sem.mark l (storeOf st.store n)
-        ({ st with store := kset st.store n x.2, table := updLoc st.table n x.1 }, .created true)
-  | .peek n => ((openE cfg st n false tOpen).1, .peeked)
+        (releaseE { st with store := kset st.store n x.2, table := updLoc st.table n x.1 } n tRel, .created true)
+  | .peek n => (releaseE (openE cfg st n false tOpen).1 n tRel, .peeked)
 
 /-- a sequential history; every request comes with its two clock readings -/
 def runE (cfg : Cfg) (st : SysSt sem) : List (Req sem × Int × Int) → SysSt sem × List (Out sem)
@@ -212,114 +219,116 @@ def runD (check : Bool) (d : DSt sem) : List (Req sem × Int × Int) → DSt sem
     let (d2, os) := runD check d1 rest
     (d2, o :: os)
 
-/-! ## Concurrent semantics: threads × atomic steps O, G, C, X, R over a heap of entries and instances -/
+/-! ## Concurrent semantics: threads × atomic steps O, X, R over the table and a heap of instances -/
 
 structure HEntry where
   expires : Int
-  pending : Bool
+  pending : Nat
   inst : Option Nat        -- index into `insts`
 deriving Repr, DecidableEq
 
 inductive PC (sem : LocSem) where
   | start (r : Req sem)                       -- before O
-  | get (r : Req sem) (eid : Nat)             -- holds the private pointer `cl`, before G
-  | cleanup (r : Req sem) (eid : Nat) (res : Option Nat)   -- before C
-  | opened (r : Req sem) (res : Option Nat)   -- findLocation returned; before X
-  | releasing (n : String) (inst : Option Nat) (out : Out sem)   -- before R
+  | opened (r : Req sem) (i : Nat)            -- findLocation returned instance `i`; before X
+  | releasing (n : String) (inst : Option Nat) (out : Out sem)   -- before R (`inst = none`: the open failed)
   | done (inst : Option Nat) (out : Out sem)
 
 structure CSt (sem : LocSem) where
-  table : List (String × Nat) := []            -- name ↦ entry id
-  ents : List HEntry := []                     -- heap of entries (a pointer is an index)
-  insts : List (String × sem.L) := []          -- heap of Location instances
+  table : List (String × HEntry) := []         -- name ↦ entry
+  insts : List (String × sem.L) := []          -- heap of Location instances (a pointer is an index)
   store : List (String × sem.S) := []          -- the shared storage
   loads : List String := []
   pcs : List (PC sem) := []
+  /-- ghost: every answer, with its request, in the order in which the answers were determined (a failed open at O,
+  everything else at X) -/
+  log : List (Req sem × Out sem) := []
 
 def setNth {α : Type} : List α → Nat → α → List α
   | [], _, _ => []
   | _ :: xs, 0, a => a :: xs
   | x :: xs, i + 1, a => x :: setNth xs i a
 
-/-- lines 238-265: the entry after a successful load -/
+/-- the entry after a successful load -/
 def loadedEntry (e : HEntry) (i : Nat) (now : Int) (ttl : Option Int) : HEntry :=
   { expires := (match ttl with | some d => now + d | none => e.expires), pending := e.pending, inst := some i }
 
-def reqCheck : Req sem → Bool
-  | .api _ _ => true
-  | _ => false
+/-- `expire(released = true)` on an entry: what is left of it -/
+def releasedEntry (e : HEntry) (now : Int) : Option HEntry :=
+  let e' : HEntry := { e with pending := e.pending - 1 }
+  if decide (0 < e'.pending) || (e'.inst.isSome && decide (now < e'.expires)) then some e' else none
+
+/-- O, the name is cached with instance `i` (`e` = its entry, this holder counted): a checked request looks at the
+marker again.  Steps never touch `pcs`; they return the thread's next program counter. -/
+def servedC (cfg : Cfg) (c : CSt sem) (r : Req sem) (e : HEntry) (i : Nat) : CSt sem × PC sem :=
+  match c.insts[i]? with
+  | none => (c, .start r)      -- a dangling pointer: does not happen
+  | some (_, l) =>
+    let c := { c with table := kset c.table r.name e }
+    if reqCheck r && cfg.checkExistence && !sem.created l then
+      ({ c with log := c.log ++ [(r, .notFound)] }, .releasing r.name none .notFound)
+    else (c, .opened r i)
+
+/-- O, nothing to serve: load under the entry lock into `e` (in the table when `installed`) -/
+def loadC (cfg : Cfg) (c : CSt sem) (r : Req sem) (e : HEntry) (installed : Bool) (now : Int) : CSt sem × PC sem :=
+  let n := r.name
+  let l := sem.load now (storeOf c.store n)
+  let c := { c with loads := c.loads ++ [n] }
+  if reqCheck r && cfg.checkExistence && !sem.created l then
+    ({ c with table := (if installed then kset c.table n e else c.table), log := c.log ++ [(r, .notFound)] },
+     .releasing n none .notFound)
+  else
+    let i := c.insts.length
+    ({ c with insts := c.insts ++ [(n, l)],
+              table := (if installed then kset c.table n (loadedEntry e i now (sem.cacheTTL l)) else c.table) },
+     .opened r i)
+
+/-- O: `CachedLocations.Open` for the request `r` -/
+def openC (cfg : Cfg) (c : CSt sem) (r : Req sem) (now : Int) : CSt sem × PC sem :=
+  match kget c.table r.name with
+  | some e0 =>
+    -- expire(released = false): one more holder
+    let e : HEntry := { e0 with pending := e0.pending + 1 }
+    (match e0.inst with
+     | some i => servedC cfg c r e i
+     | none => loadC cfg c r e true now)        -- an entry without a Location (still held): used again
+  | none => loadC cfg c r { expires := newExpires cfg now, pending := 1, inst := none } (installs cfg) now
+
+/-- X: the call through the instance `i` that `Open` handed out -/
+def callC (c : CSt sem) (r : Req sem) (i : Nat) : CSt sem × PC sem :=
+  match c.insts[i]? with
+  | none => (c, .opened r i)
+  | some (_, l) =>
+    match r with
+    | .api n op =>
+      let x := sem.exec l (storeOf c.store n) op
+      ({ c with insts := setNth c.insts i (n, x.1), store := kset c.store n x.2.1, log := c.log ++ [(r, .ok x.2.2)] },
+       .releasing n (some i) (.ok x.2.2))
+    | .create n =>
+      if sem.created l then ({ c with log := c.log ++ [(r, .created false)] }, .releasing n (some i) (.created false))
+      else
+        let x := sem.mark l (storeOf c.store n)
+        ({ c with insts := setNth c.insts i (n, x.1), store := kset c.store n x.2, log := c.log ++ [(r, .created true)] },
+         .releasing n (some i) (.created true))
+    | .peek n => ({ c with log := c.log ++ [(r, .peeked)] }, .releasing n (some i) .peeked)
+
+/-- R: `CachedLocations.Release` by name -/
+def relC (c : CSt sem) (n : String) (now : Int) : CSt sem :=
+  match kget c.table n with
+  | none => c
+  | some e =>
+    match releasedEntry e now with
+    | some e' => { c with table := kset c.table n e' }
+    | none => { c with table := kdel c.table n }
 
 /-- the atomic step of thread `tid` at time `now` (a finished or unknown thread does nothing) -/
 def cstep (cfg : Cfg) (c : CSt sem) (tid : Nat) (now : Int) : CSt sem :=
   match c.pcs[tid]? with
   | none => c
   | some pc =>
-    let setPC (c : CSt sem) (pc : PC sem) : CSt sem := { c with pcs := setNth c.pcs tid pc }
     match pc with
-    | .start r =>
-      let n := r.name
-      let found : Option (Nat × HEntry) := match kget c.table n with
-        | some eid => (match c.ents[eid]? with | some e => some (eid, e) | none => none)
-        | none => none
-      let c : CSt sem := match found with
-        | some (eid, e) => { c with ents := setNth c.ents eid { e with pending := true } }
-        | none => c
-      match found.bind (fun p => p.2.inst) with
-      | some i => setPC c (.opened r (some i))
-      | none =>
-        let eid := c.ents.length
-        let c := { c with ents := c.ents ++ [{ expires := newExpires cfg now, pending := false, inst := none }] }
-        let c := if installs cfg then { c with table := kset c.table n eid } else c
-        setPC c (.get r eid)
-    | .get r eid =>
-      let n := r.name
-      match c.ents[eid]? with
-      | none => c
-      | some e =>
-        match e.inst with
-        | some i => setPC c (.cleanup r eid (some i))
-        | none =>
-          let l := sem.load now (storeOf c.store n)
-          let c := { c with loads := c.loads ++ [n] }
-          if reqCheck r && cfg.checkExistence && !sem.created l then setPC c (.cleanup r eid none)
-          else
-            let i := c.insts.length
-            let e' : HEntry := loadedEntry e i now (sem.cacheTTL l)
-            let c := { c with insts := c.insts ++ [(n, l)], ents := setNth c.ents eid e' }
-            setPC c (.cleanup r eid (some i))
-    | .cleanup r eid res =>
-      let gone := match c.ents[eid]? with | some e => e.inst.isNone | none => false
-      let c := if gone then { c with table := kdel c.table r.name } else c
-      setPC c (.opened r res)
-    | .opened r res =>
-      match r, res with
-      | .api n _, none => setPC c (.releasing n none .notFound)
-      | .api n op, some i =>
-        (match c.insts[i]? with
-         | none => c
-         | some (_, l) =>
-           let x := sem.exec l (storeOf c.store n) op
-           setPC { c with insts := setNth c.insts i (n, x.1), store := kset c.store n x.2.1 } (.releasing n (some i) (.ok x.2.2)))
-      | .create _, none => setPC c (.done none .notFound)
-      | .create n, some i =>
-        (match c.insts[i]? with
-         | none => c
-         | some (_, l) =>
-           if sem.created l then setPC c (.done (some i) (.created false))
-           else
-             let x := sem.mark l (storeOf c.store n)
-             setPC { c with insts := setNth c.insts i (n, x.1), store := kset c.store n x.2 } (.done (some i) (.created true)))
-      | .peek _, res => setPC c (.done res .peeked)
-    | .releasing n inst out =>
-      let c : CSt sem := match kget c.table n with
-        | none => c
-        | some eid =>
-          match c.ents[eid]? with
-          | none => c
-          | some e =>
-            let c := { c with ents := setNth c.ents eid { e with pending := false } }
-            if decide (now < e.expires) then c else { c with table := kdel c.table n }
-      setPC c (.done inst out)
+    | .start r => let x := openC cfg c r now; { x.1 with pcs := setNth x.1.pcs tid x.2 }
+    | .opened r i => let x := callC c r i; { x.1 with pcs := setNth x.1.pcs tid x.2 }
+    | .releasing n inst out => let c' := relC c n now; { c' with pcs := setNth c'.pcs tid (.done inst out) }
     | .done _ _ => c
 
 /-- a schedule: which thread moves, and what the clock shows -/
@@ -330,10 +339,26 @@ def crun (cfg : Cfg) (c : CSt sem) : List (Nat × Int) → CSt sem
 def cinit (store : List (String × sem.S)) (reqs : List (Req sem)) : CSt sem :=
   { store := store, pcs := reqs.map PC.start }
 
-/-- the instance a finished thread was handed (none while running or when the open failed) -/
+/-- the instance a thread holds: from the moment `Open` handed it out until its `Release` -/
+def holdsInst (c : CSt sem) (tid : Nat) : Option (String × Nat) :=
+  match c.pcs[tid]? with
+  | some (.opened r i) => some (r.name, i)
+  | some (.releasing n (some i) _) => some (n, i)
+  | _ => none
+
+/-- the instance a thread was handed (none before its Open and when the open failed) -/
 def instOf (c : CSt sem) (tid : Nat) : Option Nat :=
   match c.pcs[tid]? with
+  | some (.opened _ i) => some i
+  | some (.releasing _ i _) => i
   | some (.done i _) => i
+  | _ => none
+
+/-- the answer of a thread, from the moment it is determined -/
+def answerOf (c : CSt sem) (tid : Nat) : Option (Out sem) :=
+  match c.pcs[tid]? with
+  | some (.releasing _ _ o) => some o
+  | some (.done _ o) => some o
   | _ => none
 
 def isDone (c : CSt sem) (tid : Nat) : Bool :=
@@ -341,23 +366,14 @@ def isDone (c : CSt sem) (tid : Nat) : Bool :=
   | some (.done _ _) => true
   | _ => false
 
-def inWindow (c : CSt sem) (tid : Nat) : Bool :=
-  match c.pcs[tid]? with
-  | some (.get _ _) => true
-  | _ => false
-
-/-- a schedule is *window-free* when a thread that has left O with a fresh entry runs G before anybody else
-moves (what the code would guarantee if it took the entry lock before releasing the table lock) -/
-def windowFree (cfg : Cfg) (c : CSt sem) : List (Nat × Int) → Bool
-  | [] => true
-  | (tid, now) :: rest =>
-    (List.range c.pcs.length).all (fun u => !inWindow c u || u == tid) && windowFree cfg (cstep cfg c tid now) rest
+/-- the requests of the log as a history (direct operation does not read the second clock) -/
+def logHist (c : CSt sem) : List (Req sem × Int × Int) := c.log.map (fun p => (p.1, 0, 0))
 
 /-! ## A small concrete location semantics (witnesses and satisfiability examples)
 Facts are numbers, fact `0` is the `createdAt` marker; memory and storage are lists. -/
 
 inductive TOp where
-  | add (k : Nat) | has (k : Nat) | clear
+  | add (k : Nat) | has (k : Nat) | clear | rem (k : Nat)
 deriving DecidableEq, Repr
 
 def toySem : LocSem where
@@ -371,6 +387,7 @@ def toySem : LocSem where
     | .add k => (k :: l, k :: s, true)
     | .has k => (l, s, l.contains k)
     | .clear => ([], [], true)
+    | .rem k => (l.filter (· != k), s.filter (· != k), true)
   created := fun l => l.contains 0
   mark := fun l s => (0 :: l, 0 :: s)
   cacheTTL := fun _ => none
@@ -388,6 +405,48 @@ def toyStoreOf (st : SysSt toySem) (n : String) : List Nat := storeOf st.store n
 def outCodes (c : CSt toySem) : List (Option Nat) :=
   c.pcs.map (fun pc => match pc with | .done _ o => some o.toyCode | _ => none)
 
+/-! ## `System.ClearLocation` keeps the marker
+
+`ClearLocation` reads the `createdAt` property, calls `Location.Clear` and, when the property was there, sets it again
+(with the value it had): clearing a location does not turn it into one that was never created.  In terms of a location
+semantics: the body of that one API method is `exec` followed, when the marker was there and is gone, by `mark`. -/
+
+/-- the body of `System.ClearLocation` (for the operations `isClear`; any other operation is left alone) -/
+def keepMarkExec (sem : LocSem) (isClear : sem.Op → Bool) (l : sem.L) (s : sem.S) (op : sem.Op) : sem.L × sem.S × sem.Res :=
+  let x := sem.exec l s op
+  if isClear op && sem.created l && !sem.created x.1 then
+    let m := sem.mark x.1 x.2.1
+    (m.1, m.2, x.2.2)
+  else x
+
+/-- the semantics whose operations `isClear` are carried out the way `System.ClearLocation` does it -/
+def keepMark (sem : LocSem) (isClear : sem.Op → Bool) : LocSem where
+  L := sem.L
+  S := sem.S
+  Op := sem.Op
+  Res := sem.Res
+  emptyS := sem.emptyS
+  load := sem.load
+  exec := keepMarkExec sem isClear
+  created := sem.created
+  mark := sem.mark
+  cacheTTL := sem.cacheTTL
+
+def TOp.isClear : TOp → Bool
+  | .clear => true
+  | _ => false
+
+/-- the toy System: `clear` is carried out the way `ClearLocation` does it -/
+def toySys : LocSem := keepMark toySem TOp.isClear
+
+def toySysCode : Out toySys → Nat
+  | .ok true => 1
+  | .ok false => 0
+  | .notFound => 2
+  | .created true => 3
+  | .created false => 4
+  | .peeked => 5
+
 /-! ## Hypotheses used by the theorems of C17 (stated here so that `Props/C17.lean` holds theorems only) -/
 
 /-- "Reloading a location from storage is the identity on observations" — what property C06 is about.
@@ -402,19 +461,32 @@ structure ReloadOK (sem : LocSem) where
   mark_eq : ∀ l l' s, R l s → R l' s → (sem.mark l s).2 = (sem.mark l' s).2
   mark_created : ∀ l s, sem.created (sem.mark l s).1 = true
 
-/-- the operation never erases the `createdAt` marker (false for Clear/Delete and for RemFact of the marker) -/
+/-- the operation never erases the `createdAt` marker (true for `ClearLocation` now; still false for `RemFact` of the
+marker's own id) -/
 def KeepsMarker (sem : LocSem) (op : sem.Op) : Prop :=
   ∀ l s, sem.created l = true → sem.created (sem.exec l s op).1 = true
 
-/-- the requests the transparency theorem covers when existence checking is on: no unchecked open that is
-never released (`GetLocation`, i.e. parents) and no marker-erasing operation -/
-def ReqOK (sem : LocSem) (check : Bool) : Req sem → Prop
+/-- what the overlap theorem asks of the requests when existence checking is on: a request that has passed the check
+in `Open` runs its call later, so no *overlapping* request may erase the marker in between (the same is true of
+locations operated directly: check, then call) -/
+def ReqKeeps (sem : LocSem) (check : Bool) : Req sem → Prop
   | .api _ op => check = true → KeepsMarker sem op
-  | .create _ => True
-  | .peek _ => check = false
+  | _ => True
 
 /-- two histories issue the same requests (their clock readings may differ) -/
 def SameReqs : List (Req sem × Int × Int) → List (Req sem × Int × Int) → Prop
   | [], [] => True
   | a :: r1, b :: r2 => a.1 = b.1 ∧ SameReqs r1 r2
   | _, _ => False
+
+/-- the toy semantics (facts = numbers, memory and storage are lists, `add`/`has`/`clear`/`rem`) satisfies `ReloadOK`
+with `R l s := l = s` -/
+def toyReloadOK : ReloadOK toySem where
+  R := fun l s => l = s
+  load_R := fun _ _ => rfl
+  exec_R := by intro l s op h; cases h; cases op <;> rfl
+  exec_eq := by intro l l' s op h h'; cases h; cases h'; rfl
+  created_eq := by intro l l' s h h'; cases h; cases h'; rfl
+  mark_R := by intro l s h; cases h; rfl
+  mark_eq := by intro l l' s h h'; cases h; cases h'; rfl
+  mark_created := by intro l s; rfl
